@@ -69,9 +69,25 @@ def run(chk):
     def depth(t):
         return 1 + max([depth(c) for c in t[3].values()] or [0])
 
-    core.differential(chk, "docs_composeinfo", cases, "roundtrip_ci", model_cases=[c["desc"] for c in cases],
+    ires, _, _ = core.differential(chk, "docs_composeinfo", cases, "roundtrip_ci", model_cases=[c["desc"] for c in cases],
                       impl_fn="impl_roundtrip", oracle=oracle,
                       nontrivial=lambda c, r: r[0] == "ok" and max([depth(t) for t in c["desc"][3].values()] or [0]) >= 2)
+    # how many of the documents the real library wrote fall under the hypotheses of C01_document_roundtrip? The executable check
+    # of Model/CiNormalB.v (proved sound: C01_executable_hypothesis_check_is_sound) is run on the object the model reader builds
+    # from the text the IMPLEMENTATION wrote.
+    import json as _json
+    import wire as _wire
+    docs = [_json.loads(r[1][0]) for r in ires if isinstance(r, list) and r and r[0] == "ok" and isinstance(r[1], list) and isinstance(r[1][0], str)]
+    if docs:
+        ares = core.run_model([_wire.encode_line("ci_applicable", d) for d in docs])
+        covered = sum(1 for a in ares if a == ["ok", [True, True]])
+        not_normal = sum(1 for a in ares if isinstance(a, list) and a and a[0] == "ok" and a[1][0] is not True)
+        shared_uid = sum(1 for a in ares if isinstance(a, list) and a and a[0] == "ok" and a[1][0] is True and a[1][1] is not True)
+        chk.log("C01_document_roundtrip applies to %d of %d written documents (not in normal form: %d, UIDs not distinct: %d)" %
+                (covered, len(docs), not_normal, shared_uid))
+        chk.obligation("theorem-applicability:C01_document_roundtrip", covered * 2 >= len(docs) and not_normal == 0,
+                       "hypotheses met by %d of %d documents written by the implementation; %d not in the reader's normal form; "
+                       "%d with a UID shared between two variants (outside the theorem: O11)" % (covered, len(docs), not_normal, shared_uid))
     return chk.finish(
         rule="compose descriptions: all compose/release types, labels, layered or not, 1-3 top-level variants, forests to depth 3 "
              "mixing all variant types incl. layered-product variants with their own release, child arch subsets, random subsets "
